@@ -198,11 +198,13 @@ Fixpoint check_blocks_acc (o : opts) (c : cache) (i : Z) (acc : list Z) (sf : bo
       let sf1 := sf || short_forecast o (bt_of o b) (b_years b) (b_h b) in
       let nb := more_blocks o (fst (secs_per_cycle o (bt_of o b) (b_h b))) (snd (secs_per_cycle o (bt_of o b) (b_h b))) (b_years b) 0 in
       let books :=
-        (* 37: when a cycle starts (not the first block of a chain: an import may be mid-cycle) every
-           year's TillLastCycle equals its Distributed — the snapshot of the previous cycle end was taken;
+        (* 37: when a cycle starts (not the first block of a chain: an import may be mid-cycle) the RUNNING
+           year's TillLastCycle equals its Distributed — the snapshot of the previous cycle end was taken
+           (a year that has closed in between keeps the value of its own last cycle end: nothing reads it any more;
+           no running year once the schedule is over);
            38: at the first block of a cycle, pulled * forecast <= supply - Distributed of the running year *)
-        flag 37 (negb (first_in_cycle o (b_h b)) || (b_h b =? 1)
-                 || forallb (fun y => y_till y =? y_dist y) (b_years b))
+        flag 37 (negb (first_in_cycle o (b_h b)) || (b_h b =? 1) || (fst nb <=? 0)
+                 || (let yr := nthZ (b_years b) (snd nb) (mkYear 0 0 0) in y_till yr =? y_dist yr))
         ++ flag 38 (negb (first_in_cycle o (b_h b)) || (b_h b =? 1) || negb (ob_pull_ok b) || (fst nb <=? 0)
                     || (ob_pull b * fst nb <=? nthZ (o_shares o) (snd nb) 0 - y_dist (nthZ (b_years b) (snd nb) (mkYear 0 0 0))))
         ++ flag 35 (really_credited b <=? ob_consumed b)
